@@ -23,7 +23,7 @@ THEOREMS_SESSION = ['RB.DB.c17_ack_at_most_once', 'RB.DB.c17_kept_on_failure', '
 THEOREMS_RETRY = ['RB.DB.c17_retry_bound', 'RB.DB.c17_retry_waits', 'RB.DB.c17_client_error_not_retried']
 THEOREMS_ENC = ['RB.DB.c17_decode_encode_v1', 'RB.DB.c17_decode_encode_v2', 'RB.DB.c17_payload_carries_run']
 
-CFG_REPO_URL = D.SOURCE['repoURL']
+CFG_REPO_URL = D.CFG_REPO_URL
 POINT_SCRIPTS = {'ok': ['ok'], 'refused': ['refused'] * 5, '5xx': ['5xx'] * 5, '4xx': ['4xx']}
 CRITERIA = [('mem', 'kb'), ('gc', 'ms'), ('compile', 'ms'), ('mem', 'MB'), ('alloc', 'bytes')]
 
@@ -74,10 +74,12 @@ def gen_enumerated(rng, outcomes, v2):
         dps = [g.dp() for _ in range(rng.randint(1, 3))]
         steps.append({'dps': dps, 'by': dps[-1]['run'], 'gap': rng.choice([30, 31, 45, 600]),
                       'script': list(POINT_SCRIPTS[o]),
+                      'statuses': {'ok': rng.choice([200, 200, 201, 202, 204])},
                       'during': [g.dp() for _ in range(rng.randint(1, 2))] if rng.random() < 0.3 else []})
     last = [g.dp() for _ in range(rng.randint(0 if steps else 1, 2))]
     steps.append({'dps': last, 'by': None, 'gap': 0, 'script': []})
     return {'v2': v2, 'n_runs': n_runs, 'prior': None, 'start': stamp(rng), 'load_gap': 0, 'load_script': ['ok'],
+            'branch': rng.choice([None, 'verif/feature-x', 'v1.2.3']),
             'steps': steps, 'close_script': list(POINT_SCRIPTS[outcomes[-1]])}
 
 
@@ -130,15 +132,19 @@ def gen_random(rng, rich=False, max_points=5):
         statuses = {}
         if rng.random() < 0.3:
             statuses = {'4xx': rng.choice([400, 401, 404, 422, 499]), '5xx': rng.choice([500, 502, 503, 599, 399, 301])}
+        if rng.random() < 0.4:
+            statuses['ok'] = rng.choice([201, 202, 204, 200])     # every 2xx is an acknowledgement
         steps.append({'dps': dps, 'by': dps[-1]['run'] if dps else rng.randrange(n_runs),
                       'gap': rng.choice([0, 1, 29, 30, 30, 31, 60, 600]), 'script': gen_script(rng),
                       'statuses': statuses,
                       'during': [g.dp(rich=rich) for _ in range(rng.randint(1, 3))] if rng.random() < 0.35 else []})
     steps.append({'dps': [g.dp(rich=rich) for _ in range(rng.choice([0, 1, 2]))], 'by': None, 'gap': 0, 'script': []})
     return {'v2': v2, 'n_runs': n_runs, 'prior': prior, 'start': stamp(rng),
+            'branch': rng.choice([None, 'verif/feature-x', 'release-2']),
             'load_gap': rng.choice([0, 0, 29, 30, 100]), 'load_script': gen_script(rng),
             'steps': steps, 'close_script': gen_script(rng),
-            'close_during': [g.dp(rich=rich)] if rng.random() < 0.1 else []}
+            'close_during': [g.dp(rich=rich)] if rng.random() < 0.1 else [],
+            'close_statuses': {'ok': rng.choice([200, 201, 202, 204])}}
 
 
 # ------------------------------------------------------------------ running one scenario on the real code
@@ -204,7 +210,7 @@ def execute(ck, sc, idx, server=None, refused_port=None):
                     w.point['attempts'].append(rec)
                     return real_urlopen(req, *a, **kw)
                 R.urlopen = urlopen
-            s = D.Session(wd, n_runs, data_file, url)
+            s = D.Session(wd, n_runs, data_file, url, branch=sc.get('branch'))
             t0 = int(w.clock)
             timeline = []   # what the oracle sees: ('dp', d) | ('point', record)
             crash = None
@@ -236,7 +242,7 @@ def execute(ck, sc, idx, server=None, refused_port=None):
                     w.end_point()
                     fl.finish()
                     add_point_events(events, timeline, {'k': 'send', 'now': now, 'script': st['script']}, w.points[-1], fl)
-                w.begin_point('close', sc['close_script'])
+                w.begin_point('close', sc['close_script'], sc.get('close_statuses'))
                 fl = D.InFlight(s, sc.get('close_during') or [])
                 if fl.dps:
                     w.hook = fl
@@ -262,7 +268,9 @@ def execute(ck, sc, idx, server=None, refused_port=None):
             runs = s.runs
             env_expected = json.dumps(w.env, sort_keys=True)
             src = dict(D.SOURCE)
-            src['repoURL'] = CFG_REPO_URL
+            src['repoURL'] = CFG_REPO_URL             # reporting.rebenchdb.repo_url overrides the working copy's
+            if sc.get('branch'):
+                src['branchOrTag'] = sc['branch']     # and --branch its branch
             src_expected = json.dumps(src, sort_keys=True)
             underrun = w.script_underrun
             options_calls = w.options_calls
@@ -281,7 +289,8 @@ def execute(ck, sc, idx, server=None, refused_port=None):
         bodies = set(a['body'] for a in p['attempts'])
         dec = D.decode_body(p['attempts'][0]['body'], runs)
         p['decoded'] = dec
-        p['success'] = p['attempts'][-1]['kind'] == 'ok'
+        # what the *server* did: it acknowledged the request if it answered any attempt with a 2xx
+        p['success'] = any(a['kind'] == 'ok' for a in p['attempts'])
         reqs.append({'success': p['success'], 'used': len(p['attempts']), 'waits': [int(x) for x in p['waits']],
                      'v2': dec['v2'], 'wire': dec['wire'], 'start': dec['startTime'],
                      'env': json.dumps(dec['env'], sort_keys=True), 'source': json.dumps(dec['source'], sort_keys=True),
@@ -290,7 +299,7 @@ def execute(ck, sc, idx, server=None, refused_port=None):
                      'method_ctype': sorted(set((a['method'], a['ctype']) for a in p['attempts']))})
     impl = {'reqs': reqs}
     impl['crash'] = crash
-    return impl, op, {'crash': crash, 'timeline': timeline, 'data_file': data_file, 'underrun': underrun,
+    return impl, op, {'source_configured': src, 'crash': crash, 'timeline': timeline, 'data_file': data_file, 'underrun': underrun,
                       'options_calls': options_calls, 'expected_start': start_expected}
 
 
@@ -371,7 +380,18 @@ def oracle(ck, sc, book, inp):
         if file_start is not None and dec['startTime'] != file_start:
             fail('payload_carries_start_time', {'payload': dec['startTime'], 'data_file': file_start})
             n += 1
+        want_src = book['source_configured']
+        if dec['source'] != want_src:
+            diff = sorted(k for k in want_src if (dec['source'] or {}).get(k) != want_src[k])
+            fail('payload_carries_env_source', {'payload_source': dec['source'], 'configured': want_src, 'differs_in': diff},
+                 part='configured source overrides', fields=','.join(diff), api='v2' if sc['v2'] else 'v1')
+            n += 1
         env, src = D.last_block_meta(book['data_file'])
+        if src is not None and D.block_count(book['data_file']) == (2 if (sc.get('prior') and sc['prior']['dps']) else 1) \
+                and src != want_src:
+            fail('payload_carries_env_source', {'data_file_source_line': src, 'configured': want_src},
+                 part='# Source: line', api='v2' if sc['v2'] else 'v1')
+            n += 1
         blocks = D.block_count(book['data_file'])
         wrote_block = blocks == (2 if (sc.get('prior') and sc['prior']['dps']) else 1)
         if env is not None and wrote_block and (dec['env'] != env or dec['source'] != src):
@@ -388,6 +408,12 @@ def oracle(ck, sc, book, inp):
         kinds = [a['kind'] for a in p['attempts']]
         if '4xx' in kinds[:-1]:
             fail('client_error_not_retried', {'attempts': kinds})
+            n += 1
+        n_acks = sum(1 for a in p['attempts'] if a['kind'] == 'ok')
+        if n_acks > 1:
+            fail('ack_at_most_once', {'point': p['label'], 'the_server_acknowledged_the_same_data_points': n_acks,
+                                      'attempts': [(a['kind'], a.get('status')) for a in p['attempts']]},
+                 within='one request')
             n += 1
         if p['success']:
             acked += got
